@@ -28,7 +28,7 @@ func init() {
 				"R5: the conversions that feed the servers, the cache and the connection limiter copy each validated setting into the constructor field of the same meaning (a wrong-field copy would put an unvalidated value where a validated one is assumed).",
 			NotCovered: "hazards other than the recognised ones (non-positive quantities, family bounds, division by zero); validation " +
 				"of lists, URLs and cross-references between sections; the environment variables.",
-			Rules: map[string]string{"C20-R17": "validateDNSCrypt accepts exactly the configurations with provider name, both keys and one of the two implemented encryption schemes", "C20-R16": "a duration setting for which validation accepts zero reaches context.WithTimeout only behind a comparison with zero (a zero timeout is an expired context, not no timeout)", "C20-R15": "a configuration section whose validate accepts a nil receiver is read only after a nil test (receiver in its own methods, loaded pointer elsewhere in cmd)", "C20-R14": "allocations sized by a configuration setting: the setting has an upper bound in validation (known findings: the rate-limit counts and the TCP pipeline count have none)", "C20-RC": "class rules (error chains, shadowed results, character classes, crossed arguments, pool constructors, array pools, loop completeness, loop-carried buffers, replacing setters, complete clones, Grow arithmetic, pooled-buffer escape, sorted searches, fresh decode targets, per-iteration objects, whole-message copies, codec guards) over the packages this property rests on", "C20-R13": "server.bindData: interface bindings without an interface-listener manager are rejected with an error", "C20-R12": "cacheConfig.toInternal: cache type none exactly when size is 0; dnssvc.newListenConfig wraps a listen configuration with the connection limiter only when there is one", "C20-R11": "newServerDNS accepts exactly the documented idle-timeout interval [0, MaxTCPIdleTimeout] (interval derived from the edges into the panic)", "C20-R1": "zero / negative rejection of every numeric setting", "C20-R2": "subnet key length family bounds",
+			Rules: map[string]string{"C20-R18": "tlsConfig.validate: an absent section exactly when no server needs TLS; a present one needs at least one certificate, valid certificates and valid wildcards", "C20-R19": "builder.initGRPCMetrics creates the gRPC metrics exactly when profiles, the DNS-check key-value store or the allowlist use the protobuf backend (their clients get the field as an interface value)", "C20-R17": "validateDNSCrypt accepts exactly the configurations with provider name, both keys and one of the two implemented encryption schemes", "C20-R16": "a duration setting for which validation accepts zero reaches context.WithTimeout only behind a comparison with zero (a zero timeout is an expired context, not no timeout)", "C20-R15": "a configuration section whose validate accepts a nil receiver is read only after a nil test (receiver in its own methods, loaded pointer elsewhere in cmd)", "C20-R14": "allocations sized by a configuration setting: the setting has an upper bound in validation (known findings: the rate-limit counts and the TCP pipeline count have none)", "C20-RC": "class rules (error chains, shadowed results, character classes, crossed arguments, pool constructors, array pools, loop completeness, loop-carried buffers, replacing setters, complete clones, Grow arithmetic, pooled-buffer escape, sorted searches, fresh decode targets, per-iteration objects, whole-message copies, codec guards) over the packages this property rests on", "C20-R13": "server.bindData: interface bindings without an interface-listener manager are rejected with an error", "C20-R12": "cacheConfig.toInternal: cache type none exactly when size is 0; dnssvc.newListenConfig wraps a listen configuration with the connection limiter only when there is one", "C20-R11": "newServerDNS accepts exactly the documented idle-timeout interval [0, MaxTCPIdleTimeout] (interval derived from the edges into the panic)", "C20-R1": "zero / negative rejection of every numeric setting", "C20-R2": "subnet key length family bounds",
 				"C20-R3": "section table completeness", "C20-R4": "divisor provenance", "C20-R5": "validated settings are copied into the constructor fields of the same meaning",
 				"C20-R8": "builder flags computed over all server groups accumulate (a later group cannot switch off what an earlier group needs, e.g. the profile database)",
 				"C20-R6": "DDR record validation: DoH port needs a path, hints must be of their address family"},
@@ -200,6 +200,84 @@ func runC20(c *an.Ctx) {
 				xsalsa != xchacha && (f.I("p0.EsVersion") == xsalsa || f.I("p0.EsVersion") == xchacha)
 			if len(o.Ret) != 1 || ok != (o.Ret[0].Kind == an.KNil) {
 				return fmt.Sprintf("accepted=%v (provider name and both keys set, es_version XSalsa20Poly1305 or XChacha20Poly1305: the server stops serving for any other value); got %s", ok, o.RetString())
+			}
+			return ""
+		},
+	})
+	// ---- R18: a tls section is accepted exactly for groups that need TLS, with at least one certificate and valid
+	// certificates and wildcards; R19: the gRPC metrics exist whenever a protobuf backend is used (profiles, the
+	// DNS-check key-value store or the allowlist): every backend client is handed them as an interface value
+	c.Floor("C20-R18", 1)
+	decide(c, "C20-R18", "cmd.(*tlsConfig).validate", an.DecideCfg{
+		Dom: an.Domain{"p0": an.NilOrNot, "p1": an.Bools, "len(p0.Certificates)": an.Ints(0, 1), "certerr": an.Bools, "wcerr": an.Bools},
+		OnCall: func(it *an.Interp, name string, args []an.AV) (an.AV, bool) {
+			switch {
+			case strings.HasSuffix(name, "tlsConfigCerts).validate"):
+				if it.Feature("certerr").IsTrue() {
+					return an.NonNil("certErr"), true
+				}
+				return an.Nil(), true
+			case strings.HasSuffix(name, "cmd.validateDeviceIDWildcards"):
+				if it.Feature("wcerr").IsTrue() {
+					return an.NonNil("wcErr"), true
+				}
+				return an.Nil(), true
+			case name == "fmt.Errorf", strings.HasSuffix(name, "errors.Error"):
+				return an.NonNil("wrapped"), true
+			}
+			return an.AV{}, false
+		},
+		Expect: func(f an.Features, o an.AOutcome) string {
+			var ok bool
+			switch {
+			case f.IsNil("p0"):
+				ok = !f.B("p1")
+			case !f.B("p1"):
+				ok = false
+			default:
+				ok = f.I("len(p0.Certificates)") > 0 && !f.B("certerr") && !f.B("wcerr")
+			}
+			if len(o.Ret) != 1 || ok != (o.Ret[0].Kind == an.KNil) {
+				return fmt.Sprintf("accepted=%v (absent exactly when no server needs TLS; otherwise at least one certificate, valid certificates and wildcards); got %s", ok, o.RetString())
+			}
+			return ""
+		},
+	})
+	c.Floor("C20-R19", 1)
+	decide(c, "C20-R19", "cmd.(*builder).initGRPCMetrics", an.DecideCfg{
+		Dom: an.Domain{"p0.profilesEnabled": an.Bools, "p0.conf.Check.RemoteKV.Type": an.Strs("backend", "consul", "redis"),
+			"p0.conf.RateLimit.Allowlist.Type": an.Strs("backend", "consul"), "newerr": an.Bools},
+		OnCall: func(it *an.Interp, name string, args []an.AV) (an.AV, bool) {
+			switch {
+			case strings.HasSuffix(name, "metrics.NewBackendGRPC"):
+				if it.Feature("newerr").IsTrue() {
+					return an.AV{Kind: an.KTuple, Tup: []an.AV{an.Nil(), an.NonNil("newErr")}}, true
+				}
+				return an.AV{Kind: an.KTuple, Tup: []an.AV{an.NonNil("grpcMetrics"), an.Nil()}}, true
+			case name == "fmt.Errorf":
+				return an.NonNil("wrapped"), true
+			}
+			return an.AV{}, false
+		},
+		Expect: func(f an.Features, o an.AOutcome) string {
+			needed := f.B("p0.profilesEnabled") || f.S("p0.conf.Check.RemoteKV.Type") == "backend" || f.S("p0.conf.RateLimit.Allowlist.Type") == "backend"
+			set := false
+			for _, s := range o.Stores() {
+				set = set || s == "p0.backendGRPCMtrc=nonnil:grpcMetrics"
+			}
+			switch {
+			case len(o.Ret) != 1:
+				return "one result"
+			case !needed:
+				if set || o.Ret[0].Kind != an.KNil {
+					return "nothing to do when no protobuf backend is used"
+				}
+			case f.B("newerr"):
+				if o.Ret[0].Kind == an.KNil {
+					return "the registration error is returned"
+				}
+			case !set || o.Ret[0].Kind != an.KNil:
+				return "the metrics are created and assigned whenever profiles, the DNS-check store or the allowlist use the backend; stores: " + strings.Join(o.Stores(), ", ")
 			}
 			return ""
 		},
